@@ -41,7 +41,10 @@ HostsByText(ts) == {i \in 1..Len(HostCat) : HostCat[i].t \in ts}
 HostsA2 == HostsByText({S("h"), S("[::1]"), S("127.0.0.1"), <<>>})
 HostsA3 == HostsByText({S("h"), S("a.x"), S("localhost"), S("[::1]"), <<>>})
 tP == S("/p")
-EncPaths == {<<SLASH, EAC>>, S("/a/") \o <<EAC>> \o S("/b"), <<SLASH, FWX>>, <<SLASH, SUR>>, S("/a b"), S("/%e9"), S("/%C3%A9")}
+HKTU == 65391   \* HALFWIDTH KATAKANA LETTER SMALL TU: the octet 2F ("/") in ISO-2022-JP-EXT
+HKYO == 65390   \* HALFWIDTH KATAKANA LETTER SMALL YO: the octet 2E (".")
+EncPaths == {<<SLASH, 120, SLASH, HKTU, HKTU>>, <<SLASH, 120, SLASH, 121, HKTU, HKYO, HKYO, HKTU, 122>>, <<SLASH, 184, 21673>>,
+             <<SLASH, EAC>>, S("/a/") \o <<EAC>> \o S("/b"), <<SLASH, FWX>>, <<SLASH, SUR>>, S("/a b"), S("/%e9"), S("/%C3%A9")}
 EncQFs   == {<<QM, EAC>>, <<HASH, EAC>>, S("?a=") \o <<EAC>> \o S("&b=%e9"), S("?c d#e f"), <<QM, FWX>>, <<HASH, SUR>>}
 
 \* path text of a segment list
